@@ -29,6 +29,7 @@ var Carriers = []Carrier{
 	{"*NodeA", "&NodeA{N: n}", ""},
 	{"*NodeB", "&NodeB{N: n}", ""},
 	{"TagInt", "TagInt(idOf(n))", ""},
+	{"TagInt2", "TagInt2(idOf(n))", ""}, // a second named type with the same underlying type: not assignable to or from TagInt
 	{"[]int", "[]int{idOf(n)}", ""},
 	{"TagList", "TagList{idOf(n)}", ""},
 	{"map[string]int", "map[string]int{\"id\": idOf(n)}", ""},
@@ -50,6 +51,7 @@ var Wider = map[string][]string{
 	"*NodeA":         {"any", "Tagged"},
 	"*NodeB":         {"any", "Tagged"},
 	"TagInt":         {"any", "Tagged"},
+	"TagInt2":        {"any", "Tagged"},
 	"[]int":          {"any", "TagList"},
 	"TagList":        {"any", "[]int"},
 	"map[string]int": {"any", "TagMap"},
@@ -96,6 +98,7 @@ type Token = hc.Token
 type NodeA struct{ N *hc.Node }
 type NodeB struct{ N *hc.Node }
 type TagInt int
+type TagInt2 int
 type TagList []int
 type TagMap map[string]int
 type TagFunc func() int
@@ -107,6 +110,7 @@ type Discarder interface{ Discard() bool }
 func (a *NodeA) Tag() int { return idOf(a.N) }
 func (b *NodeB) Tag() int { return idOf(b.N) }
 func (t TagInt) Tag() int { return int(t) }
+func (t TagInt2) Tag() int { return int(t) }
 
 func idOf(n *hc.Node) int {
 	if n == nil {
@@ -162,6 +166,8 @@ func nodeOf(h *hc.H, v any) any {
 		}
 		return x.N
 	case TagInt:
+		return h.NodeByID(int(x))
+	case TagInt2:
 		return h.NodeByID(int(x))
 	case []int:
 		if len(x) != 1 {
@@ -277,6 +283,19 @@ func NewPlan(r *rng.R, g *gram.Grammar, o *Oracle) *Plan {
 	assignable := p.Assignable
 	for range g.Rules {
 		p.RuleType = append(p.RuleType, Carriers[r.Intn(len(Carriers))])
+	}
+	if len(g.Rules) >= 2 && r.Chance(1, 4) {
+		// twin named types: two rules carry distinct named types with the
+		// same underlying type
+		pm := r.Perm(len(g.Rules))
+		for _, c := range Carriers {
+			if c.Type == "TagInt" {
+				p.RuleType[pm[0]] = c
+			}
+			if c.Type == "TagInt2" {
+				p.RuleType[pm[1]] = c
+			}
+		}
 	}
 	for attempt := 0; attempt < 30; attempt++ {
 		p.Methods = nil
